@@ -458,6 +458,14 @@ def run_column(shard, ctx):
         a = f'{get_column_letter(c)}2'
         spec = wbspec.spec(wbspec.sheet('T', {a: '=COLUMN()', 'A1': 1}))
         judge_book(ctx, ID, spec, [(0, a)], [[]], exact=True, per_cell=True, name=f'far{c}', monitor='column-reference')
+    # COLUMN of the formula's OWN cell (numbering a header row by fill-right: =COLUMN(A1) typed into A1, =COLUMN(B1) into B1 ...) and of a
+    # cell that depends on the formula: COLUMN never reads the value of its reference, so nothing here is circular
+    own = {'A1': '=COLUMN(A1)', 'B1': '=COLUMN(B1)', 'C1': '=COLUMN($C$1)*10', 'F3': '=COLUMN(F3)-COLUMN($A3)', 'H1': '=I1*2', 'I1': '=COLUMN(H1)',
+           'AB7': '=COLUMN(AB7)', 'D5': "=COLUMN('T'!D5)+COLUMN()", 'E5': '=IF(COLUMN(E5)=5,D5,0)', 'K2': '=SUM(K3:K4)', 'K3': '=COLUMN(K2)', 'K4': 1}
+    judge_book(ctx, ID, wbspec.spec(wbspec.sheet('T', own), wbspec.sheet('Other', {'B2': "=COLUMN(T!H1)+T!H1"})),
+               [(0, a) for a in own if a != 'K4'] + [(1, 'B2')], [[]], exact=True, name='colown', monitor='column-reference',
+               nontrivial=lambda case, outs: True)
+    r.count('column_of_own_cell_books')
     # multi-column area: first column
     spec = wbspec.spec(wbspec.sheet('T', {'A1': '=COLUMN(C3:E3)', 'B1': 5, 'C1': 6, 'A2': '=B1+C1', 'H9': '=COLUMN(D5:F9)'}))
 
